@@ -1,6 +1,7 @@
 package main
 
 import (
+	"go/token"
 	"encoding/json"
 	"fmt"
 	"os"
@@ -651,30 +652,49 @@ func checkConditionalNames(p *Program, r *Report, rule string) {
 					}
 				}
 				if body != nil && body != call.Block() {
-					seen := map[*ssa.BasicBlock]bool{call.Block(): true}
-					var walk func(b *ssa.BasicBlock)
-					walk = func(b *ssa.BasicBlock) {
-						if seen[b] || skipped != "" {
+					// an alternative that determines the context without the lookup is accepted only for
+					// the empty element name (text outside any element: the HTML constant), i.e. on
+					// paths that took the true side of a comparison of a string with ""
+					type wkey struct {
+						b     *ssa.BasicBlock
+						empty bool
+					}
+					seen := map[wkey]bool{}
+					emptyEdge := func(b *ssa.BasicBlock, i int) bool {
+						iff, ok := b.Instrs[len(b.Instrs)-1].(*ssa.If)
+						if !ok {
+							return false
+						}
+						bo, ok := iff.Cond.(*ssa.BinOp)
+						if !ok || !isStringish(bo.X.Type()) {
+							return false
+						}
+						kx, okx := constString(bo.X)
+						ky, oky := constString(bo.Y)
+						if !((okx && kx == "") || (oky && ky == "")) {
+							return false
+						}
+						return (bo.Op == token.EQL && i == 0) || (bo.Op == token.NEQ && i == 1)
+					}
+					var walk func(b *ssa.BasicBlock, empty bool)
+					walk = func(b *ssa.BasicBlock, empty bool) {
+						if b == call.Block() || seen[wkey{b, empty}] || skipped != "" {
 							return
 						}
-						seen[b] = true
-						// an alternative that determines the context without the lookup (constant for the empty element name) is fine
-						for _, su := range b.Succs {
+						seen[wkey{b, empty}] = true
+						for i, su := range b.Succs {
+							e2 := empty || emptyEdge(b, i)
 							if su.Dominates(b) {
 								// back edge reached without the lookup
-								okAlt := false
-								if w.fn == "sanitizerForElementContent" {
-									okAlt = true // sc = HTML for the empty name: compared with sc0 like every other
-								}
-								if !okAlt {
+								if !(w.fn == "sanitizerForElementContent" && e2) {
 									skipped = p.Pos(b.Instrs[len(b.Instrs)-1].Pos())
 								}
 								continue
 							}
-							walk(su)
+							walk(su, e2)
 						}
 					}
-					walk(body)
+					walk(body, false)
 				}
 			}
 			r.Check(skipped == "", rule, cn+"#no-iteration-skips-lookup", p.Pos(call.Pos()), "every (element, attribute) candidate goes through the policy lookup", "an iteration over the candidate names can continue without the policy lookup ("+skipped+"): a name chosen by a later branch is never checked against the policy")
